@@ -22,7 +22,7 @@ EDGE = 'tracklib.core.network.Edge'
 EXPLANATION = (
     'Static analysis by interpretation of the source (nothing imported or executed by CPython; open(), os.path and csv.reader act on an in-memory store): a track written by the interpreted CSV or GPX writer and read back by the interpreted reader with the matching format must have the same observations in order, coordinates to the written precision (1 mm metric, 1e-8 degree geographic) and timestamps to the second (milliseconds >= 500, midnight, month and year ends included); the global timestamp print format must be what it was before writing; a network written to CSV and read back must have the same nodes (ids and places), edges, end nodes, orientations and geometries; WKT text must parse back to the same planimetric coordinates.')
 ASSUMPTIONS = ["values containing the separator or the no-data sentinel are value-level cases, not decided"]
-TECHNIQUE = "abstract interpretation of the writers and readers (TrackWriter / TrackReader / TrackFormat / ObsTime print and read formats, NetworkWriter / NetworkReader / NetworkFormat, Track.toWKT / parseWkt) by the checker's AST interpreter over an in-memory file system: round trips for three coordinate systems x every column permutation x separators x header options, GPX one-file / per-track, a four-edge network with the three orientations, WKT text (bounded case domain)"
+TECHNIQUE = "abstract interpretation of the writers and readers (TrackWriter / TrackReader / TrackFormat / ObsTime print and read formats, NetworkWriter / NetworkReader / NetworkFormat, Track.toWKT / parseWkt) by the checker's AST interpreter over an in-memory file system: round trips for three coordinate systems x every column permutation x separators x header options, GPX one-file / per-track, a four-edge network with the three orientations, WKT text of ENU / geographic tracks with float, int and numpy-scalar coordinates (bounded case domain)"
 
 
 def vr(v):
